@@ -502,7 +502,28 @@ func ruleElementWidth(c *Ctx, p *core.Program, rule string) {
 func widthFactor(fn *ssa.Function) (int64, bool) {
 	var factors []int64
 	moves := false
-	for _, b := range fn.Blocks {
+	// the codec itself plus the helpers it hands the column to (a shared byte-view helper)
+	var blocks []*ssa.BasicBlock
+	blocks = append(blocks, fn.Blocks...)
+	if len(fn.Params) > 0 {
+		rn := core.NamedOf(fn.Params[0].Type())
+		for _, call := range core.Calls(fn) {
+			g := core.StaticFn(call)
+			if g == nil || g == fn || g.Blocks == nil || pkgOf(g) == nil || pkgOf(g).Path() != core.PkgProto || rn == nil {
+				continue
+			}
+			takes := false
+			for _, pr := range g.Params {
+				if n := core.NamedOf(pr.Type()); n != nil && n.Obj() == rn.Obj() {
+					takes = true
+				}
+			}
+			if takes && g.Name() != fn.Name() && g.Name() != "EncodeColumn" && g.Name() != "DecodeColumn" && g.Name() != "WriteColumn" {
+				blocks = append(blocks, g.Blocks...)
+			}
+		}
+	}
+	for _, b := range blocks {
 		for _, in := range b.Instrs {
 			switch x := in.(type) {
 			case *ssa.BinOp:
